@@ -255,6 +255,7 @@ fn run_emission(n: usize, entry_bold: bool) {
     let mut want_n = 0usize;
     let mut want_bold = [false; EV_MAX];
     let mut want_len = [0usize; EV_MAX];
+    let mut cut = false;
     let mut i = 0;
     while i < n {
         let ev = unsafe { anstyle_parse::VERIF_EV_LOG[i] };
@@ -267,6 +268,7 @@ fn run_emission(n: usize, entry_bold: bool) {
                 want_len[want_n] = pending;
                 want_n += 1;
                 pending = 0;
+                cut = true;
             }
             cur_bold = nb;
         }
@@ -287,7 +289,7 @@ fn run_emission(n: usize, entry_bold: bool) {
         k += 1;
     }
     assert!((cap.style == bold) == cur_bold && (cap.style == plain) == !cur_bold, "the style in effect is carried to the next call");
-    vk::vk_cover!(want_n >= 2, "two runs from one chunk");
+    vk::vk_cover!(cut, "a run closed by a style change");
 }
 
 macro_rules! emission {
@@ -298,6 +300,8 @@ macro_rules! emission {
         }
     };
 }
+emission!(sgr_run_emission_2_plain, 2, false);
+emission!(sgr_run_emission_2_bold, 2, true);
 emission!(sgr_run_emission_3_plain, 3, false);
 emission!(sgr_run_emission_3_bold, 3, true);
 emission!(sgr_run_emission_4_plain, 4, false);
